@@ -46,3 +46,51 @@ Theorem C06_alternatives_totals : forall d s p acc egr rs total,
   forall r, In r rs -> totals_ok_b d p r = true.
 Proof. intros d s p acc egr rs total H1 H2 H3 H r Hr. exact (proj2 (proj2 (alternatives_all_ok d s p acc egr rs total H1 H2 H3 H r Hr))). Qed.
 Print Assumptions C06_alternatives_totals.
+
+(* walking DISTANCE totals (SpecDist.walk_dists_ok_b): totalNonTransitDistance, accessDistance and egressDistance are
+   the sums of the distances of the corresponding walking steps, for routes that ride no line of mode 'transferable' *)
+From TrV Require Import SpecDist Proofs.DistTotals.
+Theorem C06_walk_distances_emit : forall (d : data) (p : params) (bestdep : Z) (js : list jstep),
+  shape_ok d js = true -> walk_dists_ok_b d (emit d p bestdep js) = true.
+Proof. exact C06_walk_dists. Qed.
+Print Assumptions C06_walk_distances_emit.
+
+Theorem C06_single_route_walk_distances : forall d s p acc egr fresh r used,
+  wf_data_b d = true -> wf_tables_b d p acc egr = true -> wf_params_b p = true ->
+  calc_single d (conn_set d s) p acc egr fresh = Ok (r, used) -> walk_dists_ok_b d r = true.
+Proof. exact calc_single_walk_dists. Qed.
+Print Assumptions C06_single_route_walk_distances.
+
+Theorem C06_alternatives_walk_distances : forall d s p acc egr rs total,
+  wf_data_b d = true -> wf_tables_b d p acc egr = true -> wf_params_b p = true ->
+  alternatives d (conn_set d s) p acc egr = Ok (rs, total) ->
+  forall r, In r rs -> walk_dists_ok_b d r = true.
+Proof. exact alternatives_walk_dists. Qed.
+Print Assumptions C06_alternatives_walk_distances.
+
+Example C06_walk_distances_example :
+  match answer_route ex_data scen_all (ex_params true 35000) ex_acc ex_egr with
+  | Ok (r, _) => rides_transferable ex_data r = false /\ walk_dists_ok_b ex_data r = true
+  | _ => False
+  end.
+Proof. vm_compute. auto. Qed.
+Print Assumptions C06_walk_distances_example.
+
+(* the initial values of the emission loop's running totals are the ones the source declares (regenerated from
+   reverse_journey.cpp on every run; D16 was the -1 of totalTransferDistance) *)
+From TrV Require Import gen.Consts Proofs.EmitInitTie.
+Theorem C06_emit_initial_totals_are_code :
+  emit_init =
+  {| e_tivt := GEN_EMIT_INIT_totalInVehicleTime; e_twalk := GEN_EMIT_INIT_totalWalkingTime;
+     e_twait := GEN_EMIT_INIT_totalWaitingTime; e_ttrwalk := GEN_EMIT_INIT_totalTransferWalkingTime;
+     e_ttrwait := GEN_EMIT_INIT_totalTransferWaitingTime; e_tdist := GEN_EMIT_INIT_totalDistance;
+     e_tivd := GEN_EMIT_INIT_totalInVehicleDistance; e_twalkd := GEN_EMIT_INIT_totalWalkingDistance;
+     e_ttrd := GEN_EMIT_INIT_totalTransferDistance; e_accd := GEN_EMIT_INIT_accessDistance;
+     e_egrd := GEN_EMIT_INIT_egressDistance;
+     e_tarr := GEN_EMIT_INIT_transferArrivalTime; e_ntr := GEN_EMIT_INIT_numberOfTransfers;
+     e_arr := GEN_EMIT_INIT_arrivalTime;
+     e_accw := GEN_EMIT_INIT_accessWalkingTime; e_egrw := GEN_EMIT_INIT_egressWalkingTime;
+     e_accwait := GEN_EMIT_INIT_accessWaitingTime;
+     e_steps := nil |}.
+Proof. exact emit_init_is_code. Qed.
+Print Assumptions C06_emit_initial_totals_are_code.
